@@ -29,7 +29,7 @@ def cases(seed, tier):
     for i in range(n):
         yield {"family": FAMILIES[i % len(FAMILIES)], "sub": int(rng.integers(0, 2**31))}
     for i in range(1 if tier == "quick" else 6):
-        yield {"family": "big", "sub": int(rng.integers(0, 2**31)), "first": i == 0, "cap": 2 ** 21 + 1 if tier == "quick" else None}
+        yield {"family": "big", "sub": int(rng.integers(0, 2**31)), "first": i == 0, "cap": 2 ** 22 + 5 if tier == "quick" else None}
 
 
 def make(case):
@@ -285,9 +285,9 @@ def run_big(case):
     x = rng.integers(-4000, 4000, size=n) / 8.0
     bs = float(rng.choice([1.0, 0.5, 2.0, 16.0]))
     kw = {"binsize": bs}
-    if rng.random() < .5:
+    if rng.random() < .5 and not case.get("first"):       # (the run's largest array goes through whole)
         kw["min"] = float(rng.integers(-600, -100))
-    if rng.random() < .5:
+    if rng.random() < .5 and not case.get("first"):
         kw["max"] = float(rng.integers(100, 600))
     COL.sample({"family": "big", "n": n, "kw": kw}, limit=2)
     lo = kw.get("min", float(x.min()))
